@@ -15,7 +15,7 @@ import (
 func init() {
 	register(&Property{
 		ID:    "C09",
-		Level: "proof",
+		Level: "other", // a finite case split (proof) on the interior; "other" because known finding F33 is listed for the property
 		Run:   runC09,
 		Trusted: []string{
 			"spec rank function inside the checker: Lost < Mate(k<0) by k descending < Heuristic by pawns < Mate(k>0) by k descending < Won",
